@@ -113,3 +113,14 @@ PROPS["C08"] = {
                     {"checks": 250, "shards": 16, "gomaxprocs": [1, 2, 4, 16], "env": {"C08_MAXN": 5000}})],
     }],
 }
+
+PROPS["C01"] = {
+    "level": "exploration",
+    "assumptions": ["the virtual wire (verifkit/vwire) replaces only pkg/packet/afpacket/readwriter.go; every frame handed to WritePacketData is observed",
+                    "interface pinned with -i lo, source with --srcip/--srcmac; subnets wider than /22 are covered at generator level only"],
+    "units": [{
+        "pkg": "command",
+        "tests": [T("TestC01Commands", {"checks": 60, "shards": 8, "env": {"C01_BUDGET": 3000}},
+                    {"checks": 500, "shards": 16, "env": {"C01_BUDGET": 20000}})],
+    }],
+}
